@@ -90,11 +90,11 @@ func wsProcesses(k int) int {
 
 const wsSumKey = "gengo.sum (the one the run wrote, whichever module root it is in)"
 
-// wsLogical: the tree as the property speaks of it.  Every generated file keeps its path.  gengo.sum is compared by
-// CONTENT: types.Load writes it to the module root of the package it registers first, and with two root modules
-// that choice depends on the order packages.Load reports the roots in and on the order of a range over
-// packages.Package.Imports (a Go map) in the UNCHANGED code already - see notes/C04.md, "workspaces".  The place is
-// reported as a note, not as a violation.
+// wsLogical: every generated file keeps its path; gengo.sum is compared by CONTENT here and its PLACE separately
+// (wsSumNote), so that a report says which of the two differs.  Before fix 1e7d3c9-style repair of Execute (see
+// known_findings.d/C04.json, class workspace_sum_location_unstable) the unchanged code wrote gengo.sum to the module
+// root of the package types.Load happened to register first - a range over packages.Package.Imports, a Go map - when
+// the module of the first requested package had no gengo.sum yet.
 func wsLogical(snap map[string][]byte) (map[string][]byte, string) {
 	var sums []string
 	for rel := range snap {
@@ -132,8 +132,7 @@ func wsSumNote(at []string) string {
 		return ""
 	}
 	sort.Strings(ds)
-	return "workspace: gengo.sum (same bytes) was written to different module roots by different processes: " + strings.Join(ds, ", ") +
-		" (sumFile.Dir is the module of the first registered local package; not judged here, see notes/C04.md)"
+	return "workspace: gengo.sum was written to different module roots by different processes on the same tree: " + strings.Join(ds, ", ")
 }
 
 // entryIdx: the package an entrypoint names ("m1/a" -> index), -1 for patterns
